@@ -21,8 +21,8 @@ import (
 // The real cmd/cache code runs on the in-memory device verif/faultos.
 
 type c13Case struct {
-	Kind  string `json:"kind"`  // corrupt | truncate | extend | rekey | wrongsum | crash | fault | baseline
-	Body  int    `json:"body"`  // body id
+	Kind  string `json:"kind"` // corrupt | truncate | extend | rekey | wrongsum | crash | fault | baseline
+	Body  int    `json:"body"` // body id
 	Off   int    `json:"offset,omitempty"`
 	Mask  int    `json:"mask,omitempty"`
 	Len   int    `json:"length,omitempty"`
